@@ -11,7 +11,7 @@ from .model import HistoryModel, ModelError, TreeModel, flat_ops, is_ignored_pat
 
 
 class World:
-    def __init__(self, init, limit=100, ropefolder=None, prefs=None, tag="w", clock=None, root=None, stamp=False):
+    def __init__(self, init, limit=100, ropefolder=None, prefs=None, tag="w", clock=None, root=None, stamp=False, lib=None):
         import rope.base.change as rc
 
         self.dir = kernel.new_scratch(tag)
@@ -21,6 +21,15 @@ class World:
         self._rc = rc
         self.ropefolder = ropefolder
         self.prefs = dict(prefs or {})
+        if lib:
+            # a library outside the project, on python_path, in a sibling folder whose
+            # path starts with the project's own (<base>/proj and <base>/proj_lib)
+            self.lib = self.root + "_lib"
+            os.makedirs(self.lib)
+            for name, text in lib.items():
+                with open(os.path.join(self.lib, name), "w", encoding="utf-8", newline="") as f:
+                    f.write(text)
+            self.prefs["python_path"] = [self.lib]
         self.prefs.setdefault("max_history_items", limit)
         self.fs = simfs.SimFS(self.root, self.clock, stamp=stamp)
         self.project = None
@@ -237,32 +246,9 @@ def exec_history_step(world: World, model: HistoryModel, st, out=None):
             return StepResult(op, skipped=True, info={"why": str(e)})
         k = call[0]
         try:
-            if k == "edit":
-                cur = tree  # (after apply) -- File.write is a no-op when the text is unchanged
-                f = p.get_file(call[1])
-                if f.read() == call[2]:
-                    return StepResult(op, skipped=True, info={"why": "same text"})
-                desc = "Writing file <%s>" % call[1]
-                f.write(call[2])
-            elif k == "mkfile":
-                parent, _, name = call[1].rpartition("/")
-                desc = "Creating file <%s>" % call[1]
-                p.get_folder(parent).create_file(name)
-            elif k == "mkdir":
-                parent, _, name = call[1].rpartition("/")
-                desc = "Creating folder <%s>" % call[1]
-                p.get_folder(parent).create_folder(name)
-            elif k == "move":
-                res = p.get_resource(call[1])
-                into = bool(call[4]) if len(call) > 4 else False
-                dest_arg = call[2].rpartition("/")[0] if into and call[2].rpartition("/")[2] == res.name else call[2]
-                if os.path.isdir(p._get_resource_path(dest_arg)) and dest_arg == call[2]:
-                    return StepResult(op, skipped=True, info={"why": "destination name is a folder"})
-                desc = "Moving <%s> to <%s>" % (call[1], dest_arg)
-                res.move(dest_arg)
-            elif k == "remove":
-                desc = "Removing <%s>" % call[1]
-                p.get_resource(call[1]).remove()
+            desc = api_call(p, call)
+        except _ApiSkip as e:
+            return StepResult(op, skipped=True, info={"why": str(e)})
         except Exception as e:
             return StepResult(op, exc=e, info={"model_ok": True, "has_remove": k == "remove"})
         model.do({"id": st["id"], "desc": desc, "ops": [call]})
@@ -419,3 +405,41 @@ def mirror_step(model, st):
         model.redo_sel(None)
     elif op == "redo_sel" and model.redo and model.redo_feasible(st["i"] % len(model.redo)):
         model.redo_sel(st["i"] % len(model.redo))
+
+
+class _ApiSkip(Exception):
+    pass
+
+
+def api_call(p, call, precheck=True):
+    """One change made through the resource helper API (File.write, Folder.create_file /
+    create_folder, Resource.move / remove) instead of an explicit ChangeSet.  Returns the
+    description rope gives the change set it wraps the change in."""
+    k = call[0]
+    if k == "edit":
+        f = p.get_file(call[1])
+        if precheck and f.read() == call[2]:
+            raise _ApiSkip("same text")  # File.write is a no-op then
+        f.write(call[2])
+        return "Writing file <%s>" % call[1]
+    if k == "mkfile":
+        parent, _, name = call[1].rpartition("/")
+        p.get_folder(parent).create_file(name)
+        return "Creating file <%s>" % call[1]
+    if k == "mkdir":
+        parent, _, name = call[1].rpartition("/")
+        p.get_folder(parent).create_folder(name)
+        return "Creating folder <%s>" % call[1]
+    if k == "move":
+        res = p.get_resource(call[1])
+        parent, _, name = call[2].rpartition("/")
+        # Resource.move(x): x names the new location, or an existing folder to move into
+        dest_arg = parent if (name == res.name and len(call) > 4 and call[4]) else call[2]
+        if dest_arg == call[2] and os.path.isdir(p._get_resource_path(dest_arg)):
+            raise _ApiSkip("destination name is a folder")
+        res.move(dest_arg)
+        return "Moving <%s> to <%s>" % (call[1], dest_arg)
+    if k == "remove":
+        p.get_resource(call[1]).remove()
+        return "Removing <%s>" % call[1]
+    raise _ApiSkip("not an API change")
